@@ -68,7 +68,7 @@ CLAIMS.update({
              "total += value from 0, min/max folded with the like-named builtin (or the equivalent comparison form) from their "
              "own previous cell with the first value taken from the data, mean = total/count of the same cell after both were "
              "updated, per-time reset; HybridRunner reads exactly the written keys, each aggregate branch stores under its own "
-             "key, empty states are zero-filled. A restructuring the matcher does not recognise is an ANALYSIS-ERROR, not a verdict.",
+             "key, empty states are zero-filled. A restructuring the matcher does not recognise is an ANALYSIS-ERROR, not a verdict. ZERO: no truth test of a numeric property value in the property loop (0 is a value).",
         note="Not decided: numeric equality on populations (float summation), pandas."),
     "C14": dict(
         technique="kind dataflow (agent id vs list position) + who-may-write rules on next_agent_id / agents / agent_type_map",
@@ -159,7 +159,7 @@ CLAIMS.update({
              "apply constants, points and run specs, wired name to name, before start(); change_runspecs writes exactly starttime/"
              "stoptime/dt and every written attribute has a reader; add_scenarios and load_scenarios merge base values with overrides "
              "winning; run specs from a scenario file are not overwritten unconditionally at instantiation; no run-spec number is "
-             "spliced into equation text at build time.",
+             "spliced into equation text at build time. OLDSPEC: no condition of a settings channel reads a run spec the same call is about to replace.",
         note="Not decided: numeric equality with a directly built model; XMILE models' own run-spec handling."),
     "C08": dict(
         technique="must-call dataflow on the CFG of every definition-changing member + shape of the cache resets + lockset rule for worker threads",
@@ -168,7 +168,7 @@ CLAIMS.update({
              "resets empty every memo entry and the scenario reset drops the live simulation; REST settings and begin_session reset a "
              "scenario's cache before/after re-parameterising it; a table probed and later filled by code reachable from a Thread "
              "target started in a loop over one shared object is accessed under a lock (fails for Model.memoize: known finding, with the "
-             "reproducing stochastic model).",
+             "reproducing stochastic model). DROP: a definition setter leaves early only when the new definition provably is the old one (no overloaded == on a stored element).",
         note="Not decided: actual interleavings (model checking), numeric equality with a fresh model, direct edits of model.equations."),
 })
 
@@ -182,7 +182,7 @@ CLAIMS.update({
              "settings before start(), keeps the live simulation, simulates exactly [step, step]; session_results re-indexes exactly what "
              "was logged; the dataframe, dict and JSON values are all df[equation] of the scenario's result frame; the five stepping/"
              "result handlers pass what run_scenarios/run_step/session_results return through a serialiser untouched; every "
-             "session_state key read in bptk.py or the server is written by begin_session.",
+             "session_state key read in bptk.py or the server is written by begin_session. SKIPKEY: a step setting is skipped on a record that outlives the call only if the record is keyed by manager and scenario.",
         note="Not decided: value equality across channels; json/jsonpickle float fidelity."),
     "C16": dict(
         technique="ownership analysis: provenance of instance records, own-id argument rule, who-may-touch rule for the shared bptk, statics rule",
@@ -236,7 +236,7 @@ CLAIMS.update({
              "previous() - two regex rewrites whose constants are read from the source - moves every memo lookup of the extracted "
              "identifier template to t-self.dt; the rendered stock equals the DSL stock's normal form; non-negative flows are wrapped in "
              "max(0, .); LERP and Model._lookup have the same clamps and linear interpolation; the generated class takes dt/start/stop "
-             "from their own spec fields and keys its memo on a rounded time (the 'any dt' clause, repaired).",
+             "from their own spec fields and keys its memo on a rounded time (the 'any dt' clause, repaired). DTEXACT: the dt of the run specs is the <dt> tag's number or its exact reciprocal (backward slice of parse_xmile).",
         note="Not decided: trajectories; Stella compatibility of built-ins; arrayed stocks. The Jinja template is parsed method by "
              "method after tag stripping; __init__ is read as text for the three run-spec lines."),
 })
